@@ -443,6 +443,10 @@ harnesses! {
     #[unwind(8)] fn recv_short_89_b() { short_followups::<89, 5>([24, 25, 57, 80, 89], true) }
     // two packets, the follow-up one byte shorter than the window would allow
     #[unwind(8)] fn recv_short_60_c() { short_followups::<60, 3>([24, 55, 60], false) }
+    // a message that WOULD fit one packet (20 <= first window 24) but was re-sent in three after ENOBUFS:
+    // the header's total alone does not say whether follow-ups exist
+    #[unwind(8)] fn recv_short_20_d() { short_followups::<20, 3>([8, 14, 20], false) }
+    #[unwind(8)] fn recv_short_24_e() { short_followups::<24, 2>([12, 24], true) }
     #[unwind(8)] fn recv_plan_sym_60() { plan_sym() }
     #[unwind(6)] fn transit_queued_small() { transit::<3>(0) }
     #[unwind(6)] fn transit_queued_multi() { transit::<57>(0) }
